@@ -139,6 +139,7 @@ Record cfg := mkCfg {
   c_pool_stop_before_unload : bool; (* pool shutdown: workerStopper.Stop() (waits for running jobs) before unloadNodes() *)
   c_sched_checks_loaded : bool;    (* scheduleWorker drops a pending job whose shard is not in the pool's node map *)
   c_stream_checks_flag : bool;     (* node.canStream refuses a stream task while node.ss.streaming() *)
+  c_close_checks_destroyed : bool; (* closeWorker.handle skips a node whose DestroyedC is closed *)
   c_book_atomic : bool;            (* update/handleBatch: setApplied/setOnDiskIndex in the critical section of the Update call *)
   c_pool_blocks : list (string * list string)
                                    (* workerPool.canSchedule: task kind -> in-progress maps that keep it waiting *)
@@ -510,7 +511,7 @@ Definition step (c : cfg) (st : state) (a : action) : option state :=
     then
       let st1 := mkState (thr st) (destroyed st) (closed st) (nclose st) (stopped st) (cnt st) (ap_ref st) (ap_chk st)
                          (pool_ref st) (pool_chk st) false (ss_streaming st) (stream_done st) (pend st) (dirty st) (snap_bad st) in
-      if destroyed st then Some st1
+      if c_close_checks_destroyed c && destroyed st then Some st1
       else Some (set_thr st1 (upd 1 (mkThr (close_sites c) P0 None) (thr st1)))
     else None
   | AThr i => match thr_step c st i with Some st1 => Some (ghost_step c st i st1) | None => None end
@@ -546,7 +547,7 @@ Definition gen_cfg (k : kind) (nsnap : nat) : cfg :=
   mkCfg gen_sites k nsnap engine_load_inside_foreach pool_load_inside_foreach apply_checks_stopped
         pool_rechecks_before_schedule pool_stops_workers_before_unload
         sched_checks_node_loaded can_stream_checks_streaming
-        apply_bookkeeping_in_update_section pool_blocks.
+        close_worker_checks_destroyed apply_bookkeeping_in_update_section pool_blocks.
 
 (* ---- table conditions the positive theorems need (booleans, decided by computation) ---- *)
 Definition site_ok_core (s : site) : bool :=
